@@ -20,6 +20,8 @@ type RunOut struct {
 	Foreign    []string // signals that belong to other properties (never change this check's verdict)
 	HarnessErr string
 	Inputs     int // property-specific count of evaluated inputs (mutants, resubmissions, ...)
+	SubEvals   int      // for batch properties: independent cases evaluated inside this run
+	SubFP      []string // fingerprints of the non-trivial cases inside this run
 }
 
 // Property is one registered check.
